@@ -24,6 +24,45 @@ def adversarial(n, rpc, rnd):
     return sels
 
 
+def cached_case(case):
+    """loads through trees opened FROM AN INDEX with several records_per_chunk values in one process: the grouping must follow the rpc of
+    the call that opened the tree (not the one of an earlier open of the same index)"""
+    import glob
+    import os as _os
+
+    import ceos_alos2
+
+    from harness import imgrun, oracle, product, tracefs
+
+    for f in glob.glob(_os.path.join(_os.environ["XDG_CACHE_HOME"], "**", "*.index"), recursive=True):
+        _os.remove(f)
+    b = product.build_product(level=case["level"], images=case["images"], seed=case["seed"], pixel_special=False)
+    url = imgrun.put_on_fs(b, "vtrace", f"c11c_{case['seed']}")
+    out = {"case": case, "loads": []}
+    try:
+        ceos_alos2.open_alos2(url, backend_options={"create_cache": True, "use_cache": False, "records_per_chunk": case["rpc_w"]})
+        for rpc in case["rpcs"]:
+            tracefs.take_log()
+            tree = ceos_alos2.open_alos2(url, backend_options={"use_cache": True, "records_per_chunk": rpc})
+            oev = tracefs.take_log()
+            for im in b.images:
+                da = tree[f"imagery/{im['group']}/data"]
+                for sel in case["sels"]:
+                    key, kind, rows = imgrun.rows_of(sel, im["n"])
+                    tracefs.take_log()
+                    try:
+                        vals = da.isel(rows=key).values
+                        msg = oracle.pixels_match(vals.reshape(1, -1) if kind == "int" else vals, im, rows=rows)
+                        outcome = "equal" if msg is None else "differ"
+                    except BaseException as e:  # noqa: B902
+                        outcome = "error"
+                    out["loads"].append(dict(rpc=rpc, im={k: im[k] for k in ("name", "n", "p", "prefix", "bps")}, rows=rows, kind=kind, outcome=outcome,
+                                             events=tracefs.take_log(), reparsed=any(e["e"] == "read" and e["f"] == im["name"] for e in oev)))
+    finally:
+        imgrun.drop_from_fs(url, "vtrace")
+    return out
+
+
 def body(chk):
     from harness import imgrun, iotrace, tlc
     from harness import layout as L
@@ -104,13 +143,29 @@ def body(chk):
                     chk.count(1, f"{im['n']}x{im['p']}:{c.get('rpc')}:{ld['sel']}")
         for tid in imgrun.add_traces(batch, res):
             tid_case[tid] = c
+    ccases = [dict(level=lv, images=[("HH", None, 12, 3), ("HV", None, 9, 2)], seed=chk.seed + 990 + i, rpc_w=rw, rpcs=rpcs,
+                   sels=[("slice", 6, 12, 1), ("all",), ("list", [0, 8]), ("int", 5)])
+              for i, (lv, rw, rpcs) in enumerate([("1.5", 4, [4, 6, 3, 12]), ("1.1", 1024, [5, 2, 1024, 4]), ("1.5", 2, [7, 2])])]
+    cached_tids = set()
+    for cres in checklib.pmap(cached_case, ccases, chk.scratch):
+        for ld in cres["loads"]:
+            im = ld["im"]
+            tid = batch.start(iotrace.geom_of(im, min(int(ld["rpc"]), im["n"] + 1)), meta=None)
+            cached_tids.add(tid)
+            tid_case[tid] = dict(cres["case"], origin="opened-from-index", rpc=ld["rpc"])
+            batch.mark(tid, e="begin_load", rows=ld["rows"], kind=ld["kind"], brows=iotrace.backend_rows(ld["kind"], ld["rows"], im["n"]))
+            for ev in ld["events"]:
+                batch.event(tid, ev, im["name"])
+            batch.mark(tid, e="loaded", outcome=ld["outcome"])
+            nloads += 1
+            chk.count(1, f"cached:{im['n']}x{im['p']}:{ld['rpc']}:{ld['rows']}")
     verdicts, tr = batch.validate()
     chk.tlc_stats(tr)
     chk.traces(len(verdicts))
     drift = 0
     for tid, v in verdicts.items():
         c = tid_case[tid]
-        if v["drift"]:
+        if v["drift"] and tid not in cached_tids:  # (the Design models an uncached open: load-only traces are judged by the Envelope alone)
             drift += 1
         if v["status"] == "rejected" and v["clause"].startswith(IO_CLAUSES):
             lines = batch.lines[tid]
